@@ -21,7 +21,7 @@ CONSTANTS MaxPosts, Sessions
 Kinds == {"request", "notification"}
 Statuses == {200, 202, 204, 302, 404, 500}
 CTypes == {"json", "sse", "other", "absent"}
-Bodies == {"resp", "respNonObj", "errResp", "batch", "notifsThenResp", "wrongId", "errNullId", "errOtherId", "empty", "truncated", "nonJson", "nonUtf8", "text"}
+Bodies == {"resp", "respNonObj", "errResp", "batch", "notifsThenResp", "respThenNotif", "wrongId", "errNullId", "errOtherId", "empty", "truncated", "nonJson", "nonUtf8", "text"}
 Encs == {"std", "noEvent", "noSpace", "crlf", "cr", "comments", "multiData", "pingFirst"}
 Excs == {"none", "connect", "timeout", "protocol"}
 SessH == {"absent"} \cup Sessions
@@ -31,7 +31,7 @@ Beh == [status : Statuses, ctype : CTypes, body : Bodies, enc : Encs, exc : Excs
 \* combinations that describe something an endpoint can actually do
 Meaningful(b) ==
   /\ (b.exc # "none" => b.status = 200 /\ b.ctype = "absent" /\ b.body = "empty" /\ b.enc = "std" /\ b.sess = "absent")
-  /\ (b.enc # "std" => b.ctype = "sse" /\ b.body \in {"resp", "errResp", "notifsThenResp", "respNonObj"} /\ b.status = 200)
+  /\ (b.enc # "std" => b.ctype = "sse" /\ b.body \in {"resp", "errResp", "notifsThenResp", "respThenNotif", "respNonObj"} /\ b.status = 200)
   /\ (b.status \in {204, 302} => b.body = "empty" /\ b.ctype = "absent")
   /\ (b.status >= 400 => b.body \in {"empty", "text", "errResp", "errNullId", "errOtherId"} /\ b.ctype \in {"json", "other", "absent"})
   /\ (b.body \in {"errNullId", "errOtherId"} => b.ctype = "json" /\ b.enc = "std")
@@ -55,12 +55,13 @@ Contained(b) ==
     [] b.body = "errResp" -> <<Own("err")>>
     [] b.body = "batch" -> <<Item("notif", "none", "server"), Own("resp")>>
     [] b.body = "notifsThenResp" -> <<Item("notif", "none", "server"), Item("notif", "none", "server"), Own("resp")>>
+    [] b.body = "respThenNotif" -> <<Own("resp"), Item("notif", "none", "server")>>      \* the body goes on after the response
     [] b.body = "wrongId" -> <<Item("resp", "other", "server")>>
     [] b.body = "errNullId" -> <<Item("err", "none", "server")>>
     [] b.body = "errOtherId" -> <<Item("err", "other", "server")>>
     [] OTHER -> <<>>
 
-WellFormedBody(b) == b.body \in {"resp", "respNonObj", "errResp", "batch", "notifsThenResp", "wrongId", "errNullId", "errOtherId"}
+WellFormedBody(b) == b.body \in {"resp", "respNonObj", "errResp", "batch", "notifsThenResp", "respThenNotif", "wrongId", "errNullId", "errOtherId"}
 ForeignAnswer(b) == b.body \in {"wrongId", "errNullId", "errOtherId"}
 
 \* the statement's outcome relation
